@@ -92,6 +92,8 @@ class LossMonitor:
 
 
 _mon = None
+_JIT_SMSE = None
+_JIT_NORM = None
 
 
 def setup(ctx):
@@ -152,7 +154,19 @@ def run(case, ctx):
             if not np.allclose(v, vals[kk], rtol=2e-5, atol=1e-9):
                 viols.append(viol("D3-loss-positional-pairing" if kk[0] != "norm" else "normalized-loss-order-dependent", f"loss {kk} depends on block storage order: {vals[kk].tolist()} vs {v.tolist()} (orders {ox}/{list(y.keys())} vs {ox[::-1]}/{types})"))
         # traced under jit (keys sorted inside the trace)
-        jl = [np.asarray(jax.jit(ml.smse_loss)(x, y)), np.asarray(jax.jit(lambda u, v: ml.timestep_smse_loss(u, v, steps))(x, y)), np.asarray(jax.jit(ml.normalized_smse_loss)(x, y))]
+        global _JIT_SMSE, _JIT_NORM
+        if _JIT_SMSE is None:  # reused for all arguments of this process (jit cache keyed by the pytree structure)
+            _JIT_SMSE, _JIT_NORM = jax.jit(ml.smse_loss), jax.jit(ml.normalized_smse_loss)
+        jl = [np.asarray(_JIT_SMSE(x, y)), np.asarray(jax.jit(lambda u, v: ml.timestep_smse_loss(u, v, steps))(x, y)), np.asarray(_JIT_NORM(x, y))]
+        # the same content in reversed storage order through the same cached callables
+        xr_, yr_ = mk(xb, ox[::-1]), mk(yb, oy[::-1])
+        for nm, v, base in (("smse", np.asarray(_JIT_SMSE(xr_, yr_)), vals[("smse", "mean")]), ("normalized", np.asarray(_JIT_NORM(xr_, yr_)), vals[("norm", None)])):
+            evals += 1
+            if not np.allclose(v, base, rtol=5e-5, atol=1e-8):
+                viols.append(viol(f"{nm}-loss-under-reused-jit", f"a reused jitted {nm} loss gives {v.tolist()} for the reversed storage order, {base.tolist()} eagerly"))
+        # non-default eps of the normalised loss (the R-monitor evaluates the same eps)
+        ml.normalized_smse_loss(x, y, 1e-2)
+        evals += 1
         evals += 3
         for nm, v, base in zip(("smse", "timestep", "normalized"), jl, (vals[("smse", "mean")], vals[("ts", "mean")], vals[("norm", None)])):
             if not np.allclose(v, base, rtol=5e-5, atol=1e-8):
